@@ -22,14 +22,18 @@ CONFIG = {'level': 'proof',
                  '(request writer-check; counters writer_bytes_identical / writer_parts_identical; a difference is a '
                  'disagreement). Why no ordering freedom is left: every archive write of the compressor is '
                  'add_part_buffered and finalize flushes once, a stable sort by stream id (C13)',
-                 'proved about the reference writer for ALL decisions: container_returns_every_part (bytes -> every part of '
-                 'every stream), group_roundtrip (decodeGroup on a group\'s two streams: no violation, content = plan), '
-                 'read_write_segments (descriptor -> member data through entryAddress / pack splitter / LZ decode); '
-                 'Props/C01 continues with read_write_bases. NOT proved: the last composition step to decodeArchive '
-                 '(writeArchive ...) = ok d with d.violations = [] (directory analysis, catalogue batches and the folds over '
-                 'groups and samples; listed precisely at the end of Props/C01.lean) - that step is covered by running the '
-                 'decoder on every generated archive: catalogue and bases must equal the input and ragc\'s own reader, and '
-                 'the list of breached addressing rules must be empty',
+                 'proved about the reference writer for ALL well-formed decisions (DecisionsOK, decidable; it carries the C03 '
+                 'bounds: names over bytes 1..127, u32 counts, ids below 2^31, lengths below 2^32), inputs over the literal '
+                 'codes, any ZSTD pair with the two C12 facts: writer_conforms - the independent decoder reads every output '
+                 'of writeArchive, finds the given parameters and its list of breached format rules is EMPTY; this is the '
+                 'conformance half of the end-to-end theorem Props.C01.read_write (decode o write = id), whose stages are '
+                 'theorems here: read_write_container (C13), read_write_catalogue (C03 over the 50-sample batches), '
+                 'read_write_groups (group_roundtrip folded over xStreams/addStream), with container_returns_every_part, '
+                 'group_roundtrip, read_write_segments underneath; writer_output_accepted: for ALL decisions the output is '
+                 'accepted by Container.openBytesFixed with every part inside the file (C14 link). writeArchive returns '
+                 'none (explicitly, never a silent default) for min_match_len < 4, metadata >= 2^64, a file above 2^63-1 '
+                 'bytes, and a descriptor stream of a batch >= 4 GiB (there the Rust casts as u32 silently). What ties the '
+                 'theorem to the real writer is the byte-identity run above, not a proof about the Rust text',
                  'ZSTD is outside Lean: the harness decompresses every frame the decoder lists with the zstd crate and '
                  'hands the results back'],
  'trusted': ['zstd crate: decode_all of a frame written by ragc returns the compressed content (exercised, not proved)'],
@@ -44,8 +48,10 @@ MANIFEST = {'category': 'proof',
          '(i-1)%50 of pack (i-1)/50 in LZ groups, entry i%50 of pack i/50 in raw groups with the placeholder at pack 0 '
          'entry 0, every non-final pack has 50 entries); metadata_convention(+_parts); lz_entry_decodes, '
          'lz_pack_entry_decodes; about the reference writer Model/Writer.lean (every compressor decision is data): '
-         'container_returns_every_part, group_roundtrip, read_write_segments (all decisions, any ZSTD with the two C12 '
-         'facts). The reference writer is run against every real archive of the run with the decisions read off that '
+         'writer_conforms (every output of the reference writer is read by the independent decoder with an EMPTY '
+         'violation list - all well-formed decisions, any ZSTD with the two C12 facts), its stages read_write_container, '
+         'read_write_catalogue, read_write_groups, the layer facts container_returns_every_part, group_roundtrip, '
+         'read_write_segments, and writer_output_accepted (openBytesFixed accepts the output, parts inside the file). The reference writer is run against every real archive of the run with the decisions read off that '
          'archive and must reproduce it byte for byte (writer_bytes_identical = number of archives). The independent decoder (Model/Agc3.lean, written from the format rules, constants '
          'hard-wired) is executed on every archive ragc writes for the C01 generator plus two targeted shapes (>50 '
          'deltas per group and two sample batches; raw groups with ids >= 50): it must recover catalogue and bases '
